@@ -171,6 +171,13 @@ func execLife(t *testing.T, prop string, planJSON []byte, ch *simrt.Choices, tra
 		// which the signal was sent (earlier phases were quiescent by then)
 		ackUnknown = false
 		switch {
+		case p.Life.SignalAbsUs > 0 && p.Cfg.StallProb == 0 && k > 0:
+			// signalled in the start-up window of a later incarnation, with no
+			// stalls injected: start-up (including the load of the cache files)
+			// takes no simulated time, the dump follows a one-second sleep, so
+			// the files must come out as they went in: whatever was acknowledged
+			// by earlier incarnations is still required
+			out.Probes["signal-during-boot-of-later-incarnation"]++
 		case p.Life.SignalAbsUs > 0 || !obs.Booted:
 			ackUnknown = true
 			// signalled during or right after boot: nothing new was acknowledged;
@@ -211,12 +218,16 @@ func genLifePlan(seed int64, tier string) *LifePlan {
 			// templates of the previous incarnation (no templates), later phases
 			// may announce new templates
 			p.Cfg = prev.Cfg
+			p.Cfg.DiskReadMs = 0
 			p.Exporters = prev.Exporters
 			var dels []Delivery
 			// probes: data messages of the previous incarnation's later phases, re-stamped
 			for _, d := range prev.Dels {
-				if d.Abs == nil || d.DupOf > 0 || d.Phase == 0 || d.BadHeader || len(dels) >= 12 {
+				if d.Abs == nil || d.DupOf > 0 || (d.Phase == 0 && prev.Life.SignalAbsUs == 0) || d.BadHeader || len(dels) >= 12 {
 					continue
+				}
+				if prev.Life.SignalAbsUs > 0 && d.Phase != 0 {
+					continue // the previous incarnation was stopped while starting: its phase 0 carried the probes
 				}
 				hasTpl := false
 				for _, s := range d.Abs.Sets {
@@ -327,6 +338,28 @@ func genLifePlan(seed int64, tier string) *LifePlan {
 			if prev == nil && r.Intn(12) == 0 {
 				p.Life.SignalPhase = -1
 				p.Life.SignalAbsUs = 1 + r.Intn(3000) // during boot
+			}
+			if prev != nil && prev.Life.SignalAbsUs == 0 && !slow && r.Intn(6) == 0 {
+				// a later incarnation stopped while it starts (idle, or with the
+				// first probes arriving): the cache files of the earlier
+				// incarnations must survive it
+				p.Life.SignalPhase = -1
+				p.Life.SignalAbsUs = 1 + r.Intn(30000)
+				p.Cfg.StallProb = 0
+				// reading a file (the elements file, the cache file) may take a
+				// while: the signal then arrives before the cache is loaded; the
+				// two reads of a run loop stay well below the one-second sleep
+				// that shutdown puts in front of the dump
+				p.Cfg.DiskReadMs = []int{0, 20, 100, 300}[r.Intn(4)]
+				p.NPhases = 1
+				var keep []Delivery
+				for _, d := range p.Dels {
+					if d.Phase == 0 {
+						d.ID = len(keep)
+						keep = append(keep, d)
+					}
+				}
+				p.Dels = keep
 			}
 			// traffic around and after the signal, in particular at the instant
 			// the shutdown sleep ends (signal + 1 s)
